@@ -340,3 +340,34 @@ def worlds(
         "flags": fl,
         "feasible_by_construction": feas,
     }
+
+
+# ----------------------------------------------------------------------------- planner policies (MILP)
+@st.composite
+def planner_policy(draw, names=("ILP", "TetriSched_Gurobi", "TetriSched_CPLEX"), enforce=None):
+    name = draw(st.sampled_from(list(names)))
+    enf = draw(st.booleans()) if enforce is None else enforce
+    pol = {"name": name, "enforce_deadlines": enf, "retract_schedules": draw(st.booleans()), "lookahead": draw(st.sampled_from([0, 0, 5, 20])),
+           "goal": "max_goodput"}
+    if name == "ILP":
+        if not enf:
+            pol["goal"] = "max_slack"
+        pol["release_taskgraphs"] = draw(st.booleans())
+    elif name == "TetriSched_Gurobi":
+        pol["release_taskgraphs"] = draw(st.booleans())
+        pol["time_discretization"] = draw(st.sampled_from([1, 1, 2, 3]))
+        pol["plan_ahead"] = draw(st.sampled_from([-1, 15, 25]))
+    else:
+        pol["time_discretization"] = draw(st.sampled_from([1, 1, 2, 3]))
+        pol["plan_ahead"] = draw(st.sampled_from([-1, 15, 25]))
+    return pol
+
+
+def planner_worlds(names=("ILP", "TetriSched_Gurobi", "TetriSched_CPLEX"), enforce=None, **kw):
+    args = dict(
+        policy=planner_policy(names=names, enforce=enforce), feasible=True, conditionals=False, max_graphs=2, max_jobs=3, max_pools=2, max_workers=2,
+        release_kinds=("fixed", "fixed", "poisson"), max_releases=2, max_runtime=5,
+        flags=sim_flags(allow_timeout=False, variance=False), deadline_variances=[[0, 0], [50, 300], [100, 100], [1000, 1000]],
+    )
+    args.update(kw)
+    return worlds(**args)
